@@ -4,6 +4,7 @@ package c01
 import (
 	"bytes"
 	"fmt"
+	"math"
 	"math/rand"
 	"os"
 	"regexp"
@@ -293,6 +294,10 @@ func GenSession(r *rand.Rand, tier string) (Session, int) {
 		if s.PSD < minPSD {
 			s.PSD = minPSD
 		}
+	}
+	if r.Intn(12) == 0 {
+		// "any prompt search depth larger than ...": the largest ones an int can hold
+		s.PSD = []int{math.MaxInt, math.MaxInt - 10, 1 << 40, math.MaxInt32}[r.Intn(4)]
 	}
 	s.ReadSize = []int{1, 2, 7, 64, 8192}[r.Intn(5)]
 	// a read must be able to hold a whole escape sequence: drop the ones that do not fit
